@@ -716,7 +716,8 @@ def _run_sdmx_plan(case, rec, rng):
 # normalisers
 
 def _call_get_ueg(n, rho, inh):
-    """get_ueg(rho) - or get_ueg(rho, inh) should the signature ever take the UEG inhomogeneity variable."""
+    """get_ueg(rho, inh) with inh = value of the list's inhomogeneity variable at the UEG for the semilocal mode
+    (1 for npa/nst, 0 for np/ns); falls back to get_ueg(rho) on trees whose signature has no inh argument."""
     try:
         params = [p for p in inspect.signature(n.get_ueg).parameters]
     except (TypeError, ValueError):
